@@ -87,6 +87,23 @@ CLAIMS["C11"] = {
     "design": "DESIGN.md §5 C11",
 }
 
+CLAIMS["C12"] = {
+    "text": "Each Push combinator of dfir_pipes (compiled in place, harness child modules appended) gets per-method contracts with symbolic "
+            "own state against a havoc downstream that answers Done/Pending arbitrarily on every poll and asserts the push protocol on itself "
+            "(start_send only after its last poll_ready answered Done with no send since; never after its poll_finalize answered Done). "
+            "Per method: exactly the reference image of the accepted item reaches the right downstream (fanout: both, unzip: component-wise, "
+            "demux_var: the addressed one, arity 3), ready_both! polls every downstream even if an earlier one is pending, a buffered item "
+            "(flat_map/flatten buffer, persist replay index, accumulate/sort phases) is delivered before anything new, in order, and kept on "
+            "Pending; poll_finalize answers Done only after everything was delivered and every downstream finalized. Loop-free methods are "
+            "complete for Item=u8; flat_map/flatten/persist/accumulate/sort drains and pull::send_push/send_sink are bounded (<= 3 buffered items).",
+    "note": "Trusted: Kani+CBMC; std Vec and sort_unstable_by are trusted (sort harness uses concrete lengths 0..2); fold_keyed/reduce_keyed own an "
+            "FxHashMap and are NOT covered; resolve_futures, filter_map_async/flat_map_stream/flatten_stream (push side) and state_push have no "
+            "harness yet; re-polling poll_finalize of a downstream that already answered Done (fanout/unzip/demux) is tolerated by the havoc "
+            "downstream, as the crate's own fused TestPush does.",
+    "technique": "contract-based verification: Kani per-method contracts on the real combinators with symbolic own state and a protocol-asserting havoc downstream",
+    "design": "DESIGN.md §5 C12",
+}
+
 NOT_APPLICABLE = {
     "C08": "GHT nodes own std HashMap / hashbrown HashTable at every level; variadic type recursion is outside Verus' subset and CBMC does not get through hashbrown probing (spiked): no contract on these functions can be discharged here.",
     "C18": "Quantifies over programs the compiler accepts; partition_graph works on DfirGraph (slotmaps of syn AST nodes): no contract over that state is within Verus' subset and Kani cannot build a symbolic DfirGraph.",
